@@ -158,6 +158,8 @@ class MystReferenceResolver(ReferencesResolver):
                     location=node,
                 )
                 targetid = ref_id
+                # fall back to the document title, so that a link without text is still shown
+                implicit_text = clean_astext(self.env.titles[ref_docname])
             else:
                 _, targetid, implicit_text = slug_to_section[ref_id]
             inner_classes = ["std", "std-ref"]
